@@ -57,6 +57,7 @@ def _lambda_body(call):
 
 
 def run(P, R, tier):
+    common.array_token(P, R, 'C06.f')
     R.assume('S7: map_partitions(f) applies f to every partition; from_delayed keeps list order')
     DS = P.cls(f'{MOD}.DaskGeoSeries')
     DF = P.cls(f'{MOD}.DaskGeoDataFrame')
